@@ -36,8 +36,8 @@ def rule_declarations(ctx):
             seq_.append(("write", norm(item[1].split("(")[1].split(",")[0] if item[1].startswith("tff(") else item[1]), loops, conds, item))
         else:
             seq_.append(("emit", item[1], loops, conds, item))
-    kinds = [s[1] for s in seq_]
-    ref_order = ["{}", "predicate_{}", "predicate_{}", "type_symbol_{}", "type_function_constant_{}", "symbol_order_{}", "Display::fmt"]
+    kinds = [s[1] for i_, s in enumerate(seq_) if i_ == 0 or seq_[i_ - 1][1] != s[1]]      # one kind written by two writes (p/0, p/n) is one step
+    ref_order = ["{}", "predicate_{}", "type_symbol_{}", "type_function_constant_{}", "symbol_order_{}", "Display::fmt"]
     ctx.add("DECL", "order", kinds == ref_order, site, "output order: preamble, predicate / symbol / placeholder declarations, symbol order axioms, formulas: %s" % kinds)
     w = {k: [s for s in seq_ if s[1] == k] for k in set(kinds)}
     first = seq_[0][4] if seq_ else None
